@@ -229,9 +229,9 @@ var checks = map[string]*check{
 	"C19": {
 		id: "C19", models: []model{mcContext}, trace: "Trace_Core", batch: 4,
 		gen:         func(g *gen.G, thor bool) []gen.Program { return gen.Ctx(g, n(thor, 50, 1000), n(thor, 150, 300)) },
-		rule:        "context sessions of 150-300 calls: Add/Sub/Mul/Quo/FMA/Sqrt/Neg/Abs/Set with receivers mostly distinct from the operands (and some aliased), zeros and infinities injected so that NaN-producing calls occur, Err() at random points, SetPrec/SetMode of the context, factories, receivers whose own precision/mode differ from the context's, and calls with a nil operand (a panic that is not ErrNaN); the latch is a hidden variable of the specification, inferred by TLC from the history",
+		rule:        "context sessions of 150-300 calls: Add/Sub/Mul/Quo/FMA/Sqrt/Neg/Abs/Set with receivers mostly distinct from the operands (and some aliased), zeros and infinities injected so that NaN-producing calls occur, Err() at random points, SetPrec/SetMode of the context, all the factories (New, NewInt64, NewUint64, NewInt, NewRat, NewFloat64, NewFloat, NewString, ParseDecimal), receivers whose own precision/mode differ from the context's, and calls with a nil operand (a panic that is not ErrNaN); the latch is a hidden variable of the specification, inferred by TLC from the history",
 		assumptions: commonAssumptions,
-		req:         []string{"Ctx.Add:latched", "Ctx.Mul:nan", "Ctx.Quo:nan", "Ctx.Err:TRUE", "Ctx.Err:FALSE", "Ctx.AddNilY:panic", "Ctx.Sqrt:distinct", "Ctx.FMA:distinct", "Ctx.Add:aliased"},
+		req:         []string{"Ctx.Add:latched", "Ctx.Mul:nan", "Ctx.Quo:nan", "Ctx.Err:TRUE", "Ctx.Err:FALSE", "Ctx.AddNilY:panic", "Ctx.Sqrt:distinct", "Ctx.FMA:distinct", "Ctx.Add:aliased", "Ctx.NewFloat64:fin", "Ctx.NewFloat:fin", "Ctx.NewString:accepted", "Ctx.ParseDecimal:accepted"},
 	},
 	"C20": {
 		id: "C20", models: []model{mcSmall}, trace: "Trace_Core", batch: 4,
